@@ -691,15 +691,6 @@ impl Part for Histories {
     }
 }
 
-/// Entry point of the libFuzzer target `pbt_c12` (fuzz/fuzz_targets/pbt_c12.rs includes this file as a module).
-#[allow(dead_code)]
-pub fn fuzz_one(data: &[u8]) -> Vec<Failure> {
-    thread_local! {
-        static S: (BoxedStrategy<<Histories as Part>::Case>, std::collections::HashSet<String>) = (Histories.strategy(Tier::Thorough), open_known_sigs_of("C12"));
-    }
-    S.with(|(st, known)| kvh::engine::fuzz_one(&Histories, st, data, known))
-}
-
 fn main() {
     let mut s = Session::start(
         "C12",
@@ -718,7 +709,5 @@ fn main() {
     s.assume("component IRIs are pairwise prefix-free and local predicate names contain no IRI separator, so the annotated predicate determines its component uniquely; rules are positive, range-restricted, constant predicates, no filters (join-engine corner cases belong to C05)");
     s.assume("the engine's Dictionary is a bijection between the strings used and ids (decode(encode(s)) == s); comparisons are made on decoded strings");
     s.run(&Histories);
-    // coverage-guided search over the same strategy and oracle (libFuzzer drives the random stream): thorough tier
-    s.fuzz_campaign(&Histories, "libfuzzer:histories", "pbt_c12", 3_000, 8, 8192);
     std::process::exit(s.finish());
 }
